@@ -94,7 +94,7 @@ class CellVariable:
             # Values for ghost cells already included,
             # simply fill (as floating-point numbers: an integer or boolean
             # array would silently truncate every later assignment)
-            if not np.issubdtype(cell_value.dtype, np.floating):
+            if cell_value.dtype.kind in 'iub':
                 cell_value = cell_value.astype(float)
             self._value = TrackedArray(cell_value)
         else:
